@@ -56,12 +56,19 @@ SameAsGroup(e) ==
 Judge(e) ==
   CASE e.op = "nego" -> NegoOK(e) /\ SameAsGroup(e)
     [] e.op = "edit" -> e.accepted = FALSE /\ e.res \in {"err", "fatal"} /\ ~e.sent /\ ~e.done
+    \* a genuine ping of a later version that also advertises ciphers unknown here (signed with its trusted key): the
+    \* unknown entries are skipped - the outcome is the one of the known entries, and nothing of the responder's
+    \* handshake payload travels unsealed unless both ends enabled plain
+    [] e.op = "future" -> /\ e.res = "ok"
+                          /\ OutcomeOK(e.a, e.ap, e.b, e.bp, e.x, e.y)
+                          /\ (e.clear => (e.ap /\ e.bp))
     [] e.op = "end" -> e.g = grp.g
     [] OTHER -> FALSE
 
 Step(e) ==
   CASE e.op = "nego" -> grp' = IF e.g = grp.g THEN grp ELSE GroupOf(e)
     [] e.op = "edit" -> UNCHANGED grp
+    [] e.op = "future" -> UNCHANGED grp
     [] e.op = "end" -> grp' = NoGroup
     [] OTHER -> FALSE
 
